@@ -459,7 +459,9 @@ func knownJSON(mode string, flags []string, data []byte, r jsonRef, w want) stri
 			if r.p >= 16384-(2*maxTok+1536) {
 				return "C17/pipe-readahead"
 			}
-		} else if ahead := 2*r.sMax + 1536; r.nDocs >= 1 && r.endLast+ahead >= 16384 && r.p < r.endLast+ahead {
+		} else if ahead := 2*r.sMax + 1536 + 64; r.nDocs >= 1 && r.endLast+ahead >= 16384 && r.p < r.endLast+ahead {
+			// (+64: a window that starts less than an excerpt before the
+			// offending byte may start in the middle of a character)
 			return "C17/pipe-readahead"
 		}
 	}
